@@ -154,11 +154,10 @@ Definition tuple_to_proto (t : tuple) : outcome ptuple :=
                            p_sub := Some (Some (PSet (ss_ns ss) (ss_obj ss) (ss_rel ss))) |}
   | None, None => Panic       (* r.SubjectSet.Namespace through a nil pointer *)
   end.
-(* RelationTuple.FromProto: dereferences proto.Subject without a nil check *)
+(* RelationTuple.FromProto: nil-safe getters (after fix D11b); an absent subject yields a tuple without subject *)
 Definition tuple_from_proto (p : ptuple) : outcome tuple :=
   match p_sub p with
-  | None => Panic
-  | Some None => Ok {| t_ns := p_ns p; t_obj := p_obj p; t_rel := p_rel p; t_sid := None; t_sset := None |}
+  | None | Some None => Ok {| t_ns := p_ns p; t_obj := p_obj p; t_rel := p_rel p; t_sid := None; t_sset := None |}
   | Some (Some (PId s)) => Ok {| t_ns := p_ns p; t_obj := p_obj p; t_rel := p_rel p; t_sid := Some s; t_sset := None |}
   | Some (Some (PSet n o r)) => Ok {| t_ns := p_ns p; t_obj := p_obj p; t_rel := p_rel p; t_sid := None;
                                       t_sset := Some {| ss_ns := n; ss_obj := o; ss_rel := r |} |}
